@@ -1470,7 +1470,8 @@ func (self *_parser) reinterpretAsArrayAssignmentPattern(left *ast.ArrayLiteral)
 
 func (self *_parser) reinterpretArrayAssignPatternAsBinding(pattern *ast.ArrayPattern) *ast.ArrayPattern {
 	for i, item := range pattern.Elements {
-		pattern.Elements[i] = self.reinterpretAsDestructBindingTarget(item)
+		// an element may carry an initializer (`[x = 1]`): it is a BindingElement, not a bare target
+		pattern.Elements[i] = self.reinterpretAsBindingElement(item)
 	}
 	if pattern.Rest != nil {
 		pattern.Rest = self.reinterpretAsDestructBindingTarget(pattern.Rest)
